@@ -273,7 +273,13 @@ func (p *PkgCtx) seqTreeOf(c *VCtx, t types.Type, hint string, zero bool) SeqTre
 	if zero {
 		return SeqTree{Arr: zeroOf(arrSort(s)), Typ: t}
 	}
-	return SeqTree{Arr: c.fresh(hint, arrSort(s)), Typ: t}
+	arr := c.fresh(hint, arrSort(s))
+	if ii, ok := p.intInfo(t); ok && !ii.bv {
+		// every element of an array of Go integers is within the range of its type
+		c.decls = append(c.decls, fmt.Sprintf("(assert (forall ((k Int)) (! (and (<= %s (select %s k)) (<= (select %s k) %s)) :pattern ((select %s k)))))",
+			bigLit(ii.min()).S, arr.S, arr.S, bigLit(ii.max()).S, arr.S))
+	}
+	return SeqTree{Arr: arr, Typ: t}
 }
 
 func (p *PkgCtx) isOpaqueElem(t types.Type) bool {
